@@ -211,6 +211,27 @@ theorem supply_le_cap {m : InstMsg} {s : State} {a : AddrArg} {c : Nat} (h : ins
     (hm : m.mint = some (a, some c)) (ops : List (Block × Addr × Msg)) : (run s ops).supply ≤ c :=
   (reach_cap h ops).2 c (by simp [instCap, hm])
 
+/-! ## The tokens in circulation (Σ balances), not only the recorded supply
+
+The monitors `C13/tokens-created-without-mint` and `C13/circulation-above-cap` evaluate these two statements on
+the implementation's listed balances. -/
+
+/-- **C13, clause 1 for the tokens that exist**: on a state satisfying the C01 invariant, if a successful call
+raised the sum of all balances, it was a `mint` sent by the address stored as minter at that moment. -/
+theorem circulation_rises_only_by_mint {s s' : State} {blk : Block} {snd : Addr} {msg : Msg} {out : List Out}
+    (hi : C01.Inv s) (h : execute s blk snd msg = .ok (s', out)) (hlt : AMap.sum s.balances < AMap.sum s'.balances) :
+    ∃ to amt m, msg = .mint to amt ∧ s.mint = some m ∧ m.minter = snd := by
+  have hi' := C01.execute_inv hi h
+  exact mint_only_minter h (by rw [hi.1, hi'.1]; exact hlt)
+
+/-- **C13, clause 2 for the tokens that exist**: instantiated with a cap `c`, the sum of all balances never
+exceeds `c`, after any history. -/
+theorem circulation_le_cap {m : InstMsg} {s : State} {a : AddrArg} {c : Nat} (h : instantiate m = .ok s)
+    (hm : m.mint = some (a, some c)) (ops : List (Block × Addr × Msg)) : AMap.sum (run s ops).balances ≤ c := by
+  have := (C01.reach_inv h ops).1
+  have := supply_le_cap h hm ops
+  omega
+
 /-! ## The role moves only by its holder; renouncing is final -/
 
 /-- **C13, clause 3**: the stored minter record changes only by an `updateMinter` sent by the current
